@@ -99,10 +99,19 @@ def one_case(cid, pkey, rng):
         except Exception:
             pass
         pc0 = int(prot.progeny_counter); fc0 = int(prot.family_counter)
+    replan = (not isinstance(nm_arg, int) or not isinstance(np_arg, int)) and rng.random() < 0.6
+    if replan:
+        # a recurrent programme keeps ONE plan (cross configuration and count arrays) and hands the same objects to mate()
+        # every cycle: the recorded call is the second one with these objects
+        try:
+            prot.mate(pg, xconfig, nm_arg, np_arg, nself=nself)
+        except Exception:
+            pass
+        pc0 = int(prot.progeny_counter); fc0 = int(prot.family_counter)
     before = snapshot(pg)
     c = {"id": cid, "kind": "call", "proto": pkey, "xconfig": xconfig.tolist(), "nm": nmv, "np": npv, "nself": nself, "xo": xcls,
          "pc0": pc0, "fc0": fc0, "exc": None, "ntaxa": ntaxa,
-         "nm_is_array": not isinstance(nm_arg, int), "np_is_array": not isinstance(np_arg, int), "warm": warm}
+         "nm_is_array": not isinstance(nm_arg, int), "np_is_array": not isinstance(np_arg, int), "warm": warm, "replan": replan}
     try:
         with time_limit(60):
             out = prot.mate(pg, xconfig, nm_arg, np_arg, nself=nself)
